@@ -8,7 +8,9 @@ RULE = ("seeded Metadata dictionaries over the documented kinds (numbers incl. n
         "empty / numeric / array / string lists, dicts nested to depth 4 (thorough 7)); written with Metadata.to_h5, raw-walked, "
         "read with Metadata.from_h5; compared with the Lean writer / reader (same file objects, same read-back canonical form) and "
         "with the direct predicate 'read-back equals what was saved, kind-sensitively'; non-trivial = a container or dict value; "
-        "30 % of the cases make one container OBJECT reachable by two paths (aliasing); distinct by recipe hash")
+        "30 % of the cases make one container OBJECT reachable by two paths (aliasing); every tenth case attaches several Metadata to a "
+        "root or an inner node and writes them in TWO saves (the second an append or append-over carrying entries the file has and "
+        "entries it lacks, in any order) and reads them back; distinct by recipe hash")
 
 
 def gen_append_case(r):
